@@ -24,7 +24,7 @@ Clauses(e) ==
     [] e.kind = "bragg" -> IF Abs(e.got_ppm * e.den - 1000000 * e.num) > 5000 * e.den THEN {"bragg-reflectivity-tanh2"} ELSE {}
     \* uniform unchirped grating: max over the grid of | |H|^2 - sinh^2(g)/(cosh^2(g) - d^2/k^2) | (closed form evaluated by the harness in
     \* floating point, binding E); 1.5e-2 = accuracy of RK45 at its default tolerances for kL <= 8 (measured <= 6.7e-3)
-    [] e.kind = "spectrum" -> IF e.dev_ppm > (IF e.weak THEN 3000 ELSE 15000) THEN {"uniform-spectrum-closed-form"} ELSE {}      \* weak gratings (vdneff <= 2e-4): measured <= 1.1e-3
+    [] e.kind = "spectrum" -> IF e.dev_ppm > (IF e.weak THEN 3000 ELSE IF e.strong THEN 30000 ELSE 15000) THEN {"uniform-spectrum-closed-form"} ELSE {}      \* weak gratings (vdneff <= 2e-4): measured <= 1.1e-3; strong ones (kL 10..16, vdneff <= 5e-4): <= 1.3e-2
     \* energy of the side lobes beyond |d| = 10 k against the closed form (measured within 0.3 %)
     [] e.kind = "lobes" -> IF e.ratio_ppm < 970000 \/ e.ratio_ppm > 1030000 THEN {"uniform-spectrum-side-lobes"} ELSE {}
     [] e.kind = "route" -> IF e.ppt > 1000000 THEN {"equivalent-specifications-differ"} ELSE {}
